@@ -1194,6 +1194,56 @@ func (mgr *Manager) UpdateTag(name string, operation UpdateTagOperation) error {
 			if !ok {
 				return fmt.Errorf("unknown tag %q", name)
 			}
+			// validate everything before changing anything: a rejected
+			// update has to leave all tags as they were
+			if newTag != nil {
+				for _, rtn := range newTag.referencedTags() {
+					if _, ok := mgr.tags[rtn]; !ok {
+						return fmt.Errorf("unknown referenced tag %q", rtn)
+					}
+				}
+				// the new definition must not close a reference cycle
+				seen := map[string]struct{}{}
+				todo := newTag.referencedTags()
+				for len(todo) != 0 {
+					tn := todo[len(todo)-1]
+					todo = todo[:len(todo)-1]
+					if tn == name {
+						return errors.New("reference cycle not allowed in tags")
+					}
+					if _, ok := seen[tn]; ok {
+						continue
+					}
+					seen[tn] = struct{}{}
+					todo = append(todo, mgr.tags[tn].referencedTags()...)
+				}
+			}
+			if info.convertersUpdated {
+				for _, converterName := range info.setConverterNames {
+					if _, ok := mgr.converters[converterName]; !ok {
+						return fmt.Errorf("unknown converter %q", converterName)
+					}
+				}
+			}
+			if maxUsedStreamID != 0 && maxUsedStreamID >= mgr.nextStreamID {
+				return fmt.Errorf("unknown stream id %d", maxUsedStreamID)
+			}
+			if info.name != "" {
+				oldTyp, _, _ := parseTagName(name)
+				newTyp, newSub, _ := parseTagName(info.name)
+				if newTyp != oldTyp {
+					return errors.New("invalid tag name (can't change type of tag)")
+				}
+				if newSub == "" {
+					return errors.New("invalid tag name (prefix only not allowed)")
+				}
+				if _, ok := mgr.tags[info.name]; ok {
+					return fmt.Errorf("tag %q already exists", info.name)
+				}
+				if len(tag.referencedBy) != 0 {
+					return fmt.Errorf("tag %q still references the tag to be renamed", slices.AppendSeq(make([]string, 0, len(tag.referencedBy)), maps.Keys(tag.referencedBy))[0])
+				}
+			}
 			if info.color != "" {
 				tag.color = info.color
 			}
